@@ -476,8 +476,9 @@ def c15_step(F):
             # the k-th answer of the policy belongs to the k-th item that asked for an edge: moves so far plus (out side) drops so far
             k = len(F.routing[(n.id, side)]) - 1
             if side == "out":
-                if n.__class__.__name__ == "Source":
-                    # an item a source drops never enters the ledger: its own counter says how many answers went to dropped items
+                if n.__class__.__name__ in ("Source", "Splitter", "Combiner"):
+                    # an item a source drops never enters the ledger (and drops of splitters / combiners are not located in the pallet scenarios):
+                    # the node's own counter says how many answers went to dropped items
                     k += n.stats.get("num_item_discarded", 0)
                 else:
                     k += sum(1 for r in F.items.values() if r.loc == ("discarded", n))
